@@ -284,6 +284,10 @@ class TermEval:
             c = op["c"]
             if "int" in c:
                 return ("const", c["int"])
+            if isinstance(c.get("enum_const"), dict):
+                # a promoted `&Enum::Variant` constant
+                ec = c["enum_const"]
+                return ("ref", ("agg", "adt", ec.get("adt"), ec.get("variant"), ()))
             if "fn" in c:
                 return ("fnref", c["fn"]["full"])
             if c.get("ty") == "()":
@@ -461,8 +465,18 @@ class TermEval:
             return 1 if d[1] else 0
         if d[0] == "const" and d[1] in ("true", "false"):
             return 1 if d[1] == "true" else 0
+        if d[0] == "not":
+            v = self._const_discr(d[1])
+            return None if v is None else (0 if v else 1)
+        if d[0] == "cmp" and d[1] in ("Eq", "Ne"):
+            a, b = self._const_discr(d[2]), self._const_discr(d[3])
+            if a is not None and b is not None:
+                return int((a == b) == (d[1] == "Eq"))
+            return None
         if d[0] == "discr":
             x = d[1]
+            while isinstance(x, tuple) and x and x[0] in ("ref", "deref"):
+                x = x[1]
             vname = adt = None
             if isinstance(x, tuple) and x[0] == "agg" and x[1] == "adt":
                 adt, vname = x[2], x[3]
@@ -495,6 +509,7 @@ class TermEval:
             if not (self.inline_stores and caller_res is not None):
                 return None
             caller_res.stores.extend(r.stores)
+            caller_res.calls.extend(r.calls)
         # calls inside must all have been inlined or be pure externals; keep the term either way
         return r.ret
 
